@@ -115,6 +115,11 @@ def build(cfg, seed):
             # fewer beta than alpha orbitals are stored (programs print only part of the virtual space)
             nbeta = norb - 1
             cb, occs, en = cb[:, :nbeta], np.delete(occs, 2 * norb - 1), np.delete(en, 2 * norb - 1)
+        if seed % 7 == 3:
+            # a one-electron system stored without any beta orbital (what the WFN reader returns for H or H2+)
+            nbeta = 0
+            cb, occs, en = ca[:, :0], np.zeros(norb), en[:norb]
+            occs[0] = 1.0
         cab = np.concatenate([ca, cb], axis=1)
         if seed % 3 == 1:
             cab = np.asfortranarray(cab)                 # the memory layout of the coefficient matrix is the caller's business
@@ -262,7 +267,9 @@ def compare(src, back, fmt):
         if k not in used and o2 != 0.0:
             res["occs_same"] = False
     # stored density matrices denote the same density
-    open_shell = src.mo.kind == "restricted" and abs(float(src.mo.occsa.sum()) - float(src.mo.occsb.sum())) > 1e-9
+    # (a file without beta orbitals and with unequal electron counts is a restricted open-shell file to the reader, whatever wrote it:
+    #  also an unrestricted one-electron wavefunction stored without beta orbitals)
+    open_shell = any(m.kind == "restricted" and abs(float(m.occsa.sum()) - float(m.occsb.sum())) > 1e-9 for m in (src.mo, back.mo))
     for key, dm in (src.one_rdms or {}).items():
         if fmt == "fchk" and key == "scf" and open_shell and key not in (back.one_rdms or {}):
             continue   # documented in fchk.py: the SCF density of restricted open-shell files is dropped by the reader
@@ -692,7 +699,9 @@ def render_mwfn(rng):
         con += [float(f"{v:.8E}") for v in dk]
     nbasis = sum(nfun[t] for _c, t, _n in shells)
     unres = rng.random() < 0.4
-    nocc_a = rng.randint(1, nbasis)
+    # linearly dependent functions removed by the program: fewer orbitals (Nindbasis) than basis functions (Nbasis)
+    nind = nbasis if (nbasis < 3 or rng.random() < 0.7) else nbasis - rng.randint(1, 2)
+    nocc_a = rng.randint(1, nind)
     nocc_b = rng.randint(0, nocc_a) if unres else nocc_a
 
     def e8(v):
@@ -705,7 +714,7 @@ def render_mwfn(rng):
              f"Naelec={float(nocc_a):15.6f}", f"Nbelec={float(nocc_b):15.6f}", f"E_tot={-39.0770088 - 0.01 * nbasis:16.8E}", f"VT_ratio={2.00168405:12.8f}", "",
              "# Atom information", f"Ncenter={natom:8d}", "$Centers"]
     lines += [f"{i + 1:6d} {sym[z[i]]:<2s}{z[i]:5d}{float(z[i]):6.1f}{r[0]:16.8f}{r[1]:16.8f}{r[2]:16.8f}" for i, r in enumerate(xyz)]
-    lines += ["", "# Basis function information", f"Nbasis={nbasis:12d}", f"Nindbasis={nbasis:9d}", f"Nprims={sum(abs(nfun[abs(t)]) * n for _c, t, n in shells):12d}",
+    lines += ["", "# Basis function information", f"Nbasis={nbasis:12d}", f"Nindbasis={nind:9d}", f"Nprims={sum(abs(nfun[abs(t)]) * n for _c, t, n in shells):12d}",
               f"Nshell={len(shells):12d}", f"Nprimshell={len(expo):8d}", "$Shell types"] + chunks([t for _c, t, _n in shells], 25, lambda v: f"{v:3d}")
     lines += ["$Shell centers"] + chunks([c + 1 for c, _t, _n in shells], 10, lambda v: f"{v:8d}")
     lines += ["$Shell contraction degrees"] + chunks([n for _c, _t, n in shells], 20, lambda v: f"{v:4d}")
@@ -713,7 +722,7 @@ def render_mwfn(rng):
     lines += ["", f"# Orbital information ({2 if unres else 1}*nindbasis orbitals)", " "]
     idx = 0
     for typ, nocc in (((1, nocc_a), (2, nocc_b)) if unres else ((0, nocc_a),)):
-        for j in range(nbasis):
+        for j in range(nind):
             idx += 1
             occ = (1.0 if unres else 2.0) if j < nocc else 0.0
             co = [float(f"{rng.uniform(-1.0, 1.0):.8E}") for _ in range(nbasis)]
